@@ -3,6 +3,8 @@ package hsim
 // C09 Concurrent calls each get their own response.
 
 import (
+	"strings"
+	"errors"
 	"context"
 	"fmt"
 	"net"
@@ -24,6 +26,8 @@ func c09f(nonce int) int { return nonce*7 + 3 }
 
 type c09call struct {
 	id, nonce int
+	impatient bool // gives up after 50 ms: may fail with its deadline, nothing else
+	method    string // "" or "hold": c09f(nonce); "hold2": c09f(nonce)+1000003
 	done      bool
 	res       []interface{}
 	err       error
@@ -49,6 +53,9 @@ type gate struct {
 	release  map[int]chan struct{}
 	released map[int]bool
 	seen     map[int]int
+	frozen   bool // no release is offered while set
+	// notBefore > 0: no release is offered before that much fake time has passed
+	notBefore time.Duration
 }
 
 func newGate(sim *verifsim.Sim, acts *Actions) *gate {
@@ -68,6 +75,9 @@ func (g *gate) hold(nonce int) {
 // Options: one "release" option per arrived, not yet released call.
 func (g *gate) Options(now time.Time) []verifsim.Option {
 	var out []verifsim.Option
+	if g.frozen || (g.notBefore > 0 && g.sim.Now() < g.notBefore) {
+		return nil
+	}
 	for _, n := range g.arrived {
 		n := n
 		if g.released[n] {
@@ -80,7 +90,12 @@ func (g *gate) Options(now time.Time) []verifsim.Option {
 	}
 	return out
 }
-func (g *gate) NextDue(now time.Time) (time.Time, bool) { return time.Time{}, false }
+func (g *gate) NextDue(now time.Time) (time.Time, bool) {
+	if g.notBefore > 0 && g.sim.Now() < g.notBefore && len(g.arrived) > 0 {
+		return now.Add(g.notBefore - g.sim.Now()), true
+	}
+	return time.Time{}, false
+}
 
 func scenC09(r *Run) {
 	mode := r.PlanOf("service", "service", "pool", "scripted", "scripted", "reverse")
@@ -135,6 +150,9 @@ func c09Check(r *Run, kind, mode string, calls []*c09call, seen map[int]int) {
 		if !c.done {
 			continue
 		}
+		if c.err != nil && c.impatient && (errors.Is(c.err, context.DeadlineExceeded) || strings.Contains(c.err.Error(), "deadline") || strings.Contains(c.err.Error(), "timeout")) {
+			continue
+		}
 		if c.err != nil {
 			cls := "C09:call-failed:" + mode + ":" + kind
 			if mode == "reverse" {
@@ -146,14 +164,23 @@ func c09Check(r *Run, kind, mode string, calls []*c09call, seen map[int]int) {
 			r.Fail(cls, "call %d (nonce %d) failed with %v although the network is benign and every request was answered", c.id, c.nonce, c.err)
 			return
 		}
-		if len(c.res) != 1 || fmt.Sprint(c.res[0]) != fmt.Sprint(c09f(c.nonce)) {
+		want := func(c *c09call) int {
+			if c.method == "hold2" {
+				return c09f(c.nonce) + 1000003
+			}
+			return c09f(c.nonce)
+		}
+		if len(c.res) != 1 || fmt.Sprint(c.res[0]) != fmt.Sprint(want(c)) {
 			owner := "nobody's"
 			for _, o := range calls {
-				if len(c.res) == 1 && fmt.Sprint(c.res[0]) == fmt.Sprint(c09f(o.nonce)) {
+				if len(c.res) == 1 && fmt.Sprint(c.res[0]) == fmt.Sprint(want(o)) {
 					owner = fmt.Sprintf("call %d's", o.id)
 				}
 			}
-			r.Fail("C09:foreign-response:"+mode+":"+kind, "call %d (nonce %d) returned %v, expected %d: that is %s answer", c.id, c.nonce, c.res, c09f(c.nonce), owner)
+			if len(c.res) == 1 && owner == "nobody's" && (fmt.Sprint(c.res[0]) == fmt.Sprint(c09f(c.nonce)) || fmt.Sprint(c.res[0]) == fmt.Sprint(c09f(c.nonce)+1000003)) {
+				owner = "the other method's"
+			}
+			r.Fail("C09:foreign-response:"+mode+":"+kind, "call %d (%s, nonce %d) returned %v, expected %d: that is %s answer", c.id, c.method, c.nonce, c.res, want(c), owner)
 			return
 		}
 	}
@@ -210,6 +237,11 @@ func c09Service(r *Run, sim *verifsim.Sim, kind string, pool bool, ncallers, per
 		g.hold(nonce)
 		return c09f(nonce)
 	}, "hold")
+	// a second method with a different answer: requests in flight on one connection must not swap methods either
+	service.AddFunction(func(nonce int) int {
+		g.hold(nonce)
+		return c09f(nonce) + 1000003
+	}, "hold2")
 	fx := NewFixture(r, kind, service)
 	if pool {
 		fx.SetPool(&simPool{sim: sim})
@@ -225,18 +257,84 @@ func c09Service(r *Run, sim *verifsim.Sim, kind string, pool bool, ncallers, per
 	}
 	var calls []*c09call
 	id := 0
+	// the request counter of the connection is preset just below the places where an index could wrap
+	if presets := []int32{0, 0, 0x7fff - 3, 0xffff - 2, 0x7fffffff - 3}; true {
+		if preset := presets[r.Plan(len(presets))]; preset != 0 {
+			r.Param("preset", preset)
+			warm := &c09call{id: 0, nonce: 999}
+			sim.Task("awarm", func() {
+				warm.res, warm.err = client.Invoke("hold", []interface{}{warm.nonce})
+				warm.done = true
+			})
+			if !c09Drive(r, sim, kind, mode, []*c09call{warm}, nil, nil) {
+				return
+			}
+			sim.Drive(func() bool { return false })
+			fx.SetCounter(preset)
+		}
+	}
+	// two waves: the first wave's calls are all held inside the service; then the connection's request counter is
+	// moved ahead by a power of two, so that the second wave's indices differ from the first wave's only above bit
+	// 15 (16, 24) - calls in flight must still be told apart. (Not on udp, whose index is 15 bits by design.)
+	if offset := []int32{0x8000, 0x10000, 0x1000000}[r.Plan(3)]; kind != "udp" && r.Plan(3) == 0 {
+		r.Param("index_offset", offset)
+		warm := &c09call{id: 0, nonce: 998}
+		sim.Task("awarm", func() {
+			warm.res, warm.err = client.Invoke("hold", []interface{}{warm.nonce})
+			warm.done = true
+		})
+		if !c09Drive(r, sim, kind, mode, []*c09call{warm}, nil, nil) {
+			return
+		}
+		sim.Drive(func() bool { return false })
+		fx.SetCounter(100)
+		g.frozen = true
+		n1 := 1 + r.Plan(4)
+		n2 := 1 + r.Plan(4)
+		start := func(n int, label string) {
+			for i := 0; i < n; i++ {
+				id++
+				c := &c09call{id: id, nonce: 1000 + id*13, method: []string{"hold", "hold2"}[r.Plan(2)]}
+				calls = append(calls, c)
+				sim.Task(fmt.Sprintf("%s%02d", label, i), func() {
+					sim.Event("invoke", c.id, c.nonce, c.method)
+					c.res, c.err = client.Invoke(c.method, []interface{}{c.nonce})
+					c.done = true
+					sim.Event("return", c.id, fmt.Sprint(c.res), fmt.Sprint(c.err))
+				})
+			}
+		}
+		a0 := len(g.arrived)
+		start(n1, "wave1-")
+		sim.Drive(func() bool { return len(g.arrived) >= a0+n1 })
+		if sim.Failure() != nil {
+			return
+		}
+		fx.SetCounter(100 + offset)
+		start(n2, "wave2-")
+		sim.Drive(func() bool { return len(g.arrived) >= a0+n1+n2 })
+		g.frozen = false
+		if !c09Drive(r, sim, kind, mode, calls, nil, g.seen) {
+			return
+		}
+		sim.Drive(func() bool { return false })
+		if _, p := fx.Pending(); p > 0 {
+			r.Fail("C09:pending-entries-left:"+mode+":"+kind, "%d pending entries after all calls returned", p)
+		}
+		return
+	}
 	for i := 0; i < ncallers; i++ {
 		var mine []*c09call
 		for j := 0; j < perCaller; j++ {
 			id++
-			c := &c09call{id: id, nonce: 1000 + id*13}
+			c := &c09call{id: id, nonce: 1000 + id*13, method: []string{"hold", "hold2"}[r.Plan(2)]}
 			mine = append(mine, c)
 			calls = append(calls, c)
 		}
 		sim.Task(fmt.Sprintf("caller%02d", i), func() {
 			for _, c := range mine {
-				sim.Event("invoke", c.id, c.nonce)
-				c.res, c.err = client.Invoke("hold", []interface{}{c.nonce})
+				sim.Event("invoke", c.id, c.nonce, c.method)
+				c.res, c.err = client.Invoke(c.method, []interface{}{c.nonce})
 				c.done = true
 				sim.Event("return", c.id, fmt.Sprint(c.res), fmt.Sprint(c.err))
 			}
@@ -502,6 +600,14 @@ func c09Reverse(r *Run, sim *verifsim.Sim, kind string, ncallers, perCaller int)
 	}
 	var calls []*c09call
 	id := 0
+	// impatient mode: the provider's functions are all held for 100 ms of fake time and one caller gives up after
+	// 50 ms: its result comes back, in one batch with its siblings', for a call nobody waits for any more - the
+	// siblings must get theirs all the same
+	impatientMode := r.Plan(3) == 0
+	if impatientMode {
+		g.notBefore = 100 * time.Millisecond
+		r.Param("impatient", true)
+	}
 	for i := 0; i < ncallers; i++ {
 		var mine []*c09call
 		for j := 0; j < perCaller; j++ {
@@ -511,10 +617,19 @@ func c09Reverse(r *Run, sim *verifsim.Sim, kind string, ncallers, perCaller int)
 			calls = append(calls, c)
 		}
 		target := fmt.Sprintf("prov%d", i%nprov)
+		if impatientMode && i == 0 {
+			mine[0].impatient = true
+		}
 		sim.Task(fmt.Sprintf("caller%02d", i), func() {
 			for _, c := range mine {
 				sim.Event("invoke", c.id, c.nonce, target)
-				c.res, c.err = caller.InvokeContext(context.Background(), target, "hold", []interface{}{c.nonce}, reflect.TypeOf(0))
+				ctx := context.Background()
+				if c.impatient {
+					var cancel context.CancelFunc
+					ctx, cancel = context.WithTimeout(ctx, 50*time.Millisecond)
+					defer cancel()
+				}
+				c.res, c.err = caller.InvokeContext(ctx, target, "hold", []interface{}{c.nonce}, reflect.TypeOf(0))
 				c.done = true
 				sim.Event("return", c.id, fmt.Sprint(c.res), fmt.Sprint(c.err))
 			}
